@@ -1205,7 +1205,7 @@ theorem rtList_generic (H : Bytes → Bytes) (o : SrvOpts) (dec : Bytes → Opti
 theorem descriptorFromResponse_ok {r : Resp} {known : Bytes} {rs rd : Bool} {d : Desc}
     (h : descriptorFromResponse r known rs rd = .ok d) :
     ¬ (hget r.hdr hDigest ≠ [] ∧ isDigest (hget r.hdr hDigest) = false) ∧
-    d.digest = (if hget r.hdr hDigest ≠ [] then hget r.hdr hDigest else known) ∧
+    d.digest = (if known ≠ [] then known else hget r.hdr hDigest) ∧      -- F31: the digest asked for wins
     ¬ (rd = true ∧ d.digest = []) := by
   unfold descriptorFromResponse at h
   simp only at h
@@ -1228,7 +1228,7 @@ theorem descriptorFromResponse_ok {r : Resp} {known : Bytes} {rs rd : Bool} {d :
     by_cases h1 : hget r.hdr hDigest ≠ [] ∧ (!isDigest (hget r.hdr hDigest)) = true
     · rw [if_pos h1] at h; cases h
     · rw [if_neg h1] at h
-      by_cases h2 : rd = true ∧ (if hget r.hdr hDigest ≠ [] then hget r.hdr hDigest else known) = []
+      by_cases h2 : rd = true ∧ (if known ≠ [] then known else hget r.hdr hDigest) = []
       · rw [if_pos h2] at h; cases h
       · rw [if_neg h2] at h
         injection h with h
@@ -1238,15 +1238,23 @@ theorem descriptorFromResponse_ok {r : Resp} {known : Bytes} {rs rd : Bool} {d :
 
 theorem descriptorFromResponse_digest {r : Resp} {known : Bytes} {rs rd : Bool} {d : Desc}
     (h : descriptorFromResponse r known rs rd = .ok d) :
-    (d.digest = known ∧ hget r.hdr hDigest = []) ∨ isDigest d.digest = true := by
+    d.digest = known ∨ isDigest d.digest = true := by
+  -- F31: the descriptor's digest is the one asked for, or (nothing asked for) the validated header
   obtain ⟨h1, h2, _⟩ := descriptorFromResponse_ok h
-  by_cases he : hget r.hdr hDigest = []
-  · left; rw [h2]; simp [he]
-  · right
-    rw [h2, if_pos he]
-    cases hd : isDigest (hget r.hdr hDigest) with
-    | true => rfl
-    | false => exact absurd ⟨he, hd⟩ h1
+  by_cases hk : known = []
+  · by_cases he : hget r.hdr hDigest = []
+    · left; rw [h2, hk, he]; simp
+    · right
+      rw [h2, if_neg (by simpa using hk)]
+      cases hd : isDigest (hget r.hdr hDigest) with
+      | true => rfl
+      | false => exact absurd ⟨he, hd⟩ h1
+  · left; rw [h2, if_pos hk]
+
+/-- F31: a call that names a digest gets that digest in the descriptor, whatever the header says. -/
+theorem descriptorFromResponse_known {r : Resp} {known : Bytes} {rs rd : Bool} {d : Desc}
+    (h : descriptorFromResponse r known rs rd = .ok d) (hk : known ≠ []) : d.digest = known := by
+  rw [(descriptorFromResponse_ok h).2.1, if_pos hk]
 
 theorem descriptorFromResponse_requireDigest {r : Resp} {known : Bytes} {rs : Bool} {d : Desc}
     (h : descriptorFromResponse r known rs true = .ok d) : d.digest ≠ [] := by
@@ -1272,7 +1280,7 @@ theorem clientRead_ne_panic (H : Bytes → Bytes) (hH : ∀ x, digestHashable (H
       split
       · rename_i hne
         apply newBlobReader_ne_panic
-        rcases descriptorFromResponse_digest hd with ⟨h1, _⟩ | h1
+        rcases descriptorFromResponse_digest hd with h1 | h1
         · rcases hk with hk | hk
           · exact absurd (h1.trans hk) hne
           · rw [h1]; exact isDigest_hashable hk
@@ -1292,7 +1300,7 @@ theorem clientRead_ne_panic (H : Bytes → Bytes) (hH : ∀ x, digestHashable (H
                 · intro e; cases e
                 · rename_i d2 hd2
                   apply newBlobReader_ne_panic
-                  rcases descriptorFromResponse_digest hd2 with ⟨h1, _⟩ | h1
+                  rcases descriptorFromResponse_digest hd2 with h1 | h1
                   · exact absurd h1 (descriptorFromResponse_requireDigest hd2)
                   · exact isDigest_hashable h1
 
@@ -1305,7 +1313,7 @@ theorem clientGetBlobRange_ne_panic (known : Bytes) (hk : isDigest known = true)
     · intro e; cases e
     · rename_i d hd
       apply newBlobReader_ne_panic
-      rcases descriptorFromResponse_digest hd with ⟨h1, _⟩ | h1
+      rcases descriptorFromResponse_digest hd with h1 | h1
       · rw [h1]; exact isDigest_hashable hk
       · exact isDigest_hashable h1
 
@@ -1343,6 +1351,89 @@ theorem clientDecode_ne_panic (H : Bytes → Bytes) (hH : ∀ x, digestHashable 
     | delete => simp only [clientDelete]; (repeat' split) <;> (intro e; cases e)
 
 
+
+/-! ### F31: a call by digest reports the digest that was asked for -/
+
+/-- the digest a call names (reads, resolves and mounts BY DIGEST); `none` for calls through a tag and for
+calls whose result is the client's own account -/
+def Call.requested : Call → Option Bytes
+  | .getBlob dg | .getBlobRange dg _ _ | .getManifest dg | .resolveBlob dg | .resolveManifest dg | .mountBlob dg => some dg
+  | _ => none
+
+/-- the descriptor of a successful result -/
+def CRes.desc? : CRes → Option Desc
+  | .desc d => some d
+  | .reader d _ _ => some d
+  | _ => none
+
+theorem newBlobReader_desc? {d d' : Desc} {v : Bool} {b : Bytes} (h : (newBlobReader d v b).desc? = some d') : d' = d := by
+  unfold newBlobReader at h
+  split at h
+  · injection h with h; exact h.symm
+  · cases h
+
+theorem clientRead_requested (H : Bytes → Bytes) (kind : Kind) {known : Bytes} (hk : known ≠ []) (r1 : Resp)
+    (r2 : Option Resp) {d : Desc} (h : (clientRead H kind known r1 r2).desc? = some d) : d.digest = known := by
+  unfold clientRead at h
+  split at h
+  · cases h
+  · split at h
+    · cases h
+    · rename_i d0 hd0
+      have hdg := descriptorFromResponse_known hd0 hk
+      rw [if_pos (by rw [hdg]; exact hk)] at h
+      rw [newBlobReader_desc? h]; exact hdg
+
+theorem clientGetBlobRange_requested {known : Bytes} (hk : known ≠ []) (r : Resp) {d : Desc}
+    (h : (clientGetBlobRange known r).desc? = some d) : d.digest = known := by
+  unfold clientGetBlobRange at h
+  split at h
+  · cases h
+  · split at h
+    · cases h
+    · rename_i d0 hd0
+      rw [newBlobReader_desc? h]; exact descriptorFromResponse_known hd0 hk
+
+theorem clientResolve_requested {known : Bytes} (hk : known ≠ []) (r : Resp) {d : Desc}
+    (h : (clientResolve known r).desc? = some d) : d.digest = known := by
+  unfold clientResolve at h
+  split at h
+  · cases h
+  · split at h
+    · cases h
+    · rename_i d0 hd0
+      injection h with h
+      rw [← h]; exact descriptorFromResponse_known hd0 hk
+
+theorem clientMount_requested {known : Bytes} (hk : known ≠ []) (r : Resp) {d : Desc}
+    (h : (clientMount known r).desc? = some d) : d.digest = known := by
+  unfold clientMount at h
+  split at h
+  · cases h
+  · split at h
+    · cases h
+    · split at h
+      · cases h
+      · rename_i d0 hd0
+        injection h with h
+        rw [← h]; exact descriptorFromResponse_known hd0 hk
+
+theorem clientDecode_requested (H : Bytes → Bytes) (resolve : Bytes → Option Bytes) (c : Call) {dg : Bytes}
+    (hc : c.requested = some dg) (hne : dg ≠ []) (rs : List Resp) {d : Desc}
+    (h : (clientDecode H resolve c rs).desc? = some d) : d.digest = dg := by
+  unfold clientDecode at h
+  cases rs with
+  | nil => cases c <;> simp only at h <;> (try split at h) <;> cases h
+  | cons r1 rest =>
+    cases c <;> simp only [Call.requested] at hc <;> (try cases hc) <;> simp only at h
+    · exact clientRead_requested H _ hne _ _ h
+    · split at h
+      · exact clientRead_requested H _ hne _ _ h
+      · exact clientGetBlobRange_requested hne _ h
+    · exact clientRead_requested H _ hne _ _ h
+    · exact clientResolve_requested hne _ h
+    · exact clientResolve_requested hne _ h
+    · exact clientMount_requested hne _ h
 
 /-! ### Where the server can panic -/
 
